@@ -19,7 +19,7 @@ man = {
         "name": "gosym",
         "path": "/verif/engine",
         "serves_properties": sorted(k for k in checks if k in meta),
-        "kind_free_text": "own symbolic executor for go/ssa (x/tools v0.29.0) of /repo's current source: concrete heap, symbolic scalars/bytes as QF_BV terms, path exploration by decision-prefix replay, every branch and assertion decided by z3 4.8.12 (z3 -in); counterexamples replayed natively with go test -overlay before being reported",
+        "kind_free_text": "own symbolic executor for go/ssa (x/tools v0.29.0) of /repo's current source: concrete heap, symbolic scalars/bytes as QF_BV terms (plus an IEEE-754 binary64 fragment, QF_FPBV, for the harnesses that name it), path exploration by decision-prefix replay, every branch and assertion decided by an SMT solver (z3 4.8.12 via z3 -in; cvc5 1.0 for the floating-point harnesses); counterexamples replayed natively with go test -overlay before being reported",
     }],
     "checks": [],
     "not_applicable": [],
@@ -38,7 +38,7 @@ for p in props:
             "engine": "gosym",
             "level_claimed": {"category": "model_checking", "text": m["level_text"], "design_ref": m.get("design_ref", "DESIGN.md §3 " + pid)},
             "level_note": m["level_note"],
-            "technique": m.get("technique", "bounded symbolic execution of the real Go functions (go/ssa) with z3 deciding every branch and assertion; counterexamples replayed natively"),
+            "technique": m.get("technique", "bounded symbolic execution of the real Go functions (go/ssa) with an SMT solver (z3; cvc5 for floating point) deciding every branch and assertion; counterexamples replayed natively"),
         })
     else:
         reason = meta.get(pid, {}).get("not_applicable") or "no check built yet for this property in this session (engine exists; harness pending) — see DESIGN.md"
